@@ -347,8 +347,8 @@ def tree_hash(paths):
 
 def sizes(tier):
     if tier == "thorough":
-        return {"histories": 2500, "steps": 5, "per_shard": 40}
-    return {"histories": 260, "steps": 4, "per_shard": 30}
+        return {"histories": 2500, "steps": 5, "per_shard": 40, "pending": 400}
+    return {"histories": 260, "steps": 4, "per_shard": 30, "pending": 50}
 
 
 def generate(tier, seed, out_dir, corpus=None, histories=None):
@@ -359,6 +359,7 @@ def generate(tier, seed, out_dir, corpus=None, histories=None):
     shutil.rmtree(out_dir, ignore_errors=True)
     os.makedirs(out_dir)
     rc, out, _ = vflib.sh([binp, "gen", "--seed", str(seed), "--histories", str(sz["histories"] if histories is None else histories), "--steps", str(sz["steps"]),
+                           "--pending", str(sz["pending"] if histories is None else 0),
                            "--out", out_dir, "--corpus", corpus if corpus is not None else os.path.join(ROOT, "corpus", "sqlite")], timeout=1200)
     if rc != 0:
         return None, "hsqlite gen failed: " + out[-2000:]
@@ -603,7 +604,7 @@ def c02_check(tier, seed):
     chk.cov["evaluations"] = len(rows)
     chk.cov["distinct_nontrivial"] = nontrivial_count(rows)
     chk.cov["rule"] = ("histories grown by the real planner (plan_next_migration + revision fill) from generated evolutions of model sets inside A1-A7, "
-                       "half of them hand-extended with RenameTable / RenameColumn / explicit Add/RemoveConstraint / RawSql migrations, plus corpus witnesses; "
+                       "half of them hand-extended with RenameTable / RenameColumn / explicit Add/RemoveConstraint / RawSql migrations, a family of histories in which the pending-constraint set matters (tables sharing identical index / unique constraints, rebuilding AddConstraints next to index AddConstraints), plus corpus witnesses; "
                        "each migration is one case (baseline, plan); every history is executed on libsqlite3 with foreign_keys ON and OFF; non-trivial = "
                        ">=2 actions of >=2 kinds, or a baseline of >=2 tables; distinct by hash of (baseline, actions)")
     chk.cov["distribution"] = distribution(rows)
